@@ -44,11 +44,16 @@ func pick(src Source, alphabet string, n int) string {
 // holder data; layout is "TD1", "TD2" or "TD3".  The MRZ is built by ref/mrz
 // (all check digits correct).
 func BuildDG1(src Source, alpha2, layout string) ([]byte, string, error) {
+	return BuildDG1State(src, MRZCode(alpha2), layout)
+}
+
+// BuildDG1State is BuildDG1 for an explicit three-letter issuing state / organisation code
+// of the MRZ (ICAO 9303-3 section 5), which need not correspond to an ISO 3166 country.
+func BuildDG1State(src Source, state, layout string) ([]byte, string, error) {
 	code := "P"
 	if layout != "TD3" {
 		code = "I"
 	}
-	state := MRZCode(alpha2)
 	f := mrz.Fields{
 		Layout: layout, DocCode: code, Issuer: state, Nationality: state,
 		Surname: pick(src, mrzLetters, 3+src.Intn(8)), Given: pick(src, mrzLetters, 2+src.Intn(7)),
